@@ -12,7 +12,7 @@ theorem djInit_inv (n : Nat) (c : Nat → Nat → ℝ) (cs : Nat → Int) (v : N
     fun h => by simp [djInit] at h, fun k h1 h2 => by simp [djInit] at h2, fun k hk => by simp [djInit] at hk,
     fun j _ => le_refl _, fun m _ => Or.inl ⟨rfl, rfl⟩⟩, rfl, fun k hk => by simp [djInit] at hk⟩
 
-/-! ## the price update (`:1529-1534`) -/
+/-! ## the price update (`:1540-1545`) -/
 
 theorem priceUpdate_good (n : Nat) (s : Dj ℝ) (v : Nat → ℝ) (hperm : PermOn n s.colList) (hlast : s.last ≤ n) (B : Prop) :
     Good B (priceUpdate n s v) (fun v' =>
@@ -122,7 +122,7 @@ theorem augTight_of_post {n : Nat} {c : Nat → Nat → ℝ} {rs cs : Nat → In
         have h6 := hInv.tight _ (hp.perm.lt k (by omega)) _ h3 x hx
         linarith
 
-/-! ## the reversal of the path (`:1536-1545`) -/
+/-! ## the reversal of the path (`:1547-1556`) -/
 
 /-- the state of the reversal when the column at position `m` of the list has just lost its row
 (or is the unassigned end of the path): everything is consistent except at that column -/
